@@ -199,7 +199,9 @@ class Runnable(ABC):  # pylint: disable=too-many-instance-attributes
         """
         self.__stopping = True
         self.wake()
-        self.__shutdown = forever
+        if forever:
+            # a final stop stays final: a later stop(forever=False) must not make the service startable again
+            self.__shutdown = True
         thread = self.__thread  # otherwise race condition -- self.__thread can change value in another thread
         if thread:
             if threading.current_thread() != thread:
